@@ -517,23 +517,28 @@ def calculate_1d_frequencies(
     ):
         # The squares (or their sums) would wrap around in 64 bits: python integers
         squared_weights = weights_array.astype(object)
+    booked = 0  # values that are in a bin, below the first one or above the last one
     for xbin, bin in enumerate(bins):
         start = np.searchsorted(data_array, bin[0], side="left")
         stop = np.searchsorted(data_array, bin[1], side="left")
 
         if xbin == 0:
             underflow = weights_array[0:start].sum()
+            booked += start
         if xbin == len(bins) - 1:
             stop = np.searchsorted(
                 data_array, bin[1], side="right"
             )  # TODO: Understand and explain
             overflow = weights_array[stop:].sum()
+            booked += data_array.size - stop
 
         frequencies[xbin] = weights_array[start:stop].sum()
         errors2[xbin] = (squared_weights[start:stop] ** 2).sum()
+        booked += stop - start
 
-    # Underflow and overflow don't make sense for unconsecutive binning.
-    if not _bin_utils.is_consecutive(bins):
+    # Underflow and overflow are not the whole of what was missed once a value fell into
+    # a gap of unconsecutive bins (the rule of `fill`).
+    if booked < data_array.size:
         underflow = np.nan
         overflow = np.nan
 
